@@ -214,3 +214,42 @@ macro_rules! pw_inst {
 pw_inst!(c16_peer_entry_wire_00 = (0, 0), c16_peer_entry_wire_10 = (1, 0), c16_peer_entry_wire_01 = (0, 1), c16_peer_entry_wire_33 = (3, 3),
          c16_peer_entry_wire_70 = (7, 0), c16_peer_entry_wire_07 = (0, 7), c16_peer_entry_wire_80 = (8, 0), c16_peer_entry_wire_08 = (0, 8),
          c16_peer_entry_wire_77 = (7, 7), c16_peer_entry_wire_99 = (9, 9), c16_peer_entry_wire_92 = (9, 2), c16_peer_entry_wire_29 = (2, 9));
+
+// ============================================================================ C16: one peer-list entry, limit and flags byte
+include!(concat!(env!("VH_GEN"), "/extracted_messages.rs"));
+
+/// The statements of NodeInfo::encode_peer_list_part between sorting an entry's addresses by family and writing the
+/// flags byte (extracted): for every number of IPv4 and IPv6 addresses (0..=10 each) at most SEVEN per family remain,
+/// and the flags byte carries exactly those two counts in its two 3-bit fields plus the identity bit - the format's
+/// normalisation ("at most seven addresses per family per entry"); a count of 8 would spill into the next field.
+#[cfg_attr(kani, kani::proof, kani::unwind(12))]
+pub fn c16_peer_entry_limit_and_flags() {
+    let n4: usize = kani::any();
+    let n6: usize = kani::any();
+    let has_id: bool = kani::any();
+    kani::assume(n4 <= 10 && n6 <= 10);
+    let mut a4: SmallVec<[u8; 16]> = SmallVec::new();
+    let mut a6: SmallVec<[u8; 16]> = SmallVec::new();
+    let mut i = 0;
+    while i < 10 {
+        if i < n4 {
+            a4.push(4);
+        }
+        if i < n6 {
+            a6.push(6);
+        }
+        i += 1;
+    }
+    let p = XPeerEntry { node_id: if has_id { Some(1) } else { None } };
+    let (flags, l4, l6) = x_peer_entry_flags(&p, a4, a6);
+    let e4 = if n4 < 7 { n4 } else { 7 };
+    let e6 = if n6 < 7 { n6 } else { 7 };
+    assert!(l4 == e4 && l6 == e6);
+    assert!((flags & 0x07) as usize == e4);
+    assert!(((flags >> 3) & 0x07) as usize == e6);
+    assert!((flags & 0x80 != 0) == has_id);
+    assert!(flags & 0x40 == 0);
+    vcover!(n4 == 8, "eight_ipv4_addresses");
+    vcover!(n6 >= 8, "eight_or_more_ipv6_addresses");
+    witness!();
+}
